@@ -35,7 +35,9 @@ import (
 //	dup m          fault, cost 1: pool message m is duplicated (the copy stays in the pool)
 //	tick           virtual time advances to the consumer controller's next resend tick (at most T
 //	               times during exploration; the producer controller's local retry tick only talks
-//	               to its own endpoint and is configured out of reach)
+//	               to its own endpoint and is configured out of reach). Free while the pool is empty
+//	               (idle network, slow applications); with messages in the pool it is the "delay"
+//	               fault, cost 1: those messages arrive after the timeout has fired
 //
 // Search: explicit-state breadth-first search over event histories; a state is reached by replaying
 // its (shortest) history on a fresh system, successor = replay + one event. States are merged on
@@ -52,11 +54,30 @@ const (
 )
 
 type c42Params struct {
-	name    string
-	n, w    int      // messages, flow-control window
-	faults  int      // fault budget
-	ticks   int      // tick budget during exploration
-	classes []string // enabled fault classes "drop:Kind" / "dup:Kind"; nil = all
+	name   string
+	n, w   int // messages, flow-control window
+	faults int // fault budget
+	ticks  int // tick budget during exploration
+	// sharding: the class of the FIRST fault of a history decides which shard explores it
+	shard, nshards int
+}
+
+// c42OwnsFirstFault partitions the faulty histories over the shards by the class of their first
+// fault: (fault kind, message type, position of the fault in the history mod 4), dealt round robin.
+// Every shard explores the fault-free part; every history with a fault belongs to exactly one shard.
+func c42OwnsFirstFault(kind, msgKind string, pos, shard, nshards int) bool {
+	if nshards <= 1 {
+		return true
+	}
+	ki := map[string]int{"drop": 0, "dup": 1, "delay": 2}[kind]
+	mi := 0
+	for i, k := range c42Kinds {
+		if k == msgKind {
+			mi = i
+		}
+	}
+	class := (ki*len(c42Kinds)+mi)*4 + pos%4
+	return class%nshards == shard
 }
 
 type c42Op struct {
@@ -159,19 +180,6 @@ func (w *c42World) renderer() func(m *c42Msg) string {
 	return func(m *c42Msg) string { return c42Render(m.msg, nonce, sess) }
 }
 
-func (w *c42World) classEnabled(kind string, m *c42Msg) bool {
-	if w.p.classes == nil {
-		return true
-	}
-	key := kind + ":" + c42Kind(m.msg)
-	for _, c := range w.p.classes {
-		if c == key {
-			return true
-		}
-	}
-	return false
-}
-
 // ops lists the events enabled in the current quiescent state in a canonical order. Pool messages
 // with the same canonical rendering are interchangeable, so only one representative gets events.
 func (w *c42World) ops(explore bool) []c42Op {
@@ -210,13 +218,16 @@ func (w *c42World) ops(explore bool) []c42Op {
 		m := e.m
 		out = append(out, c42Op{label: "deliver " + e.s, run: func() { w.deliver(m) }})
 	}
+	owns := func(kind, msgKind string) bool {
+		return w.faults > 0 || c42OwnsFirstFault(kind, msgKind, len(w.events), w.p.shard, w.p.nshards)
+	}
 	if explore && w.faults < w.p.faults {
 		for _, e := range ents {
 			m := e.m
-			if w.classEnabled("drop", m) {
+			if owns("drop", c42Kind(m.msg)) {
 				out = append(out, c42Op{label: "drop " + e.s, cost: 1, run: func() { w.faults++; w.net.c42Remove(m) }})
 			}
-			if w.classEnabled("dup", m) {
+			if owns("dup", c42Kind(m.msg)) {
 				out = append(out, c42Op{label: "dup " + e.s, cost: 1, run: func() {
 					w.faults++
 					w.net.c42Add(&c42Msg{from: m.from, to: m.to, msg: m.msg})
@@ -225,7 +236,14 @@ func (w *c42World) ops(explore bool) []c42Op {
 		}
 	}
 	if explore && w.ticks < w.p.ticks {
-		out = append(out, c42Op{label: "tick", run: func() { w.ticks++; time.Sleep(c42Interval) }})
+		// Time passing while the network is idle is free (slow applications are no fault); a tick that
+		// overtakes messages still in the pool is the "delay" fault (cost 1): those messages arrive
+		// after the receiver's timeout fired.
+		if len(pool) == 0 {
+			out = append(out, c42Op{label: "tick", run: func() { w.ticks++; time.Sleep(c42Interval) }})
+		} else if w.faults < w.p.faults && owns("delay", "") {
+			out = append(out, c42Op{label: "tick(delaying the pool)", cost: 1, run: func() { w.ticks++; w.faults++; time.Sleep(c42Interval) }})
+		}
 	}
 	return out
 }
@@ -482,16 +500,18 @@ type c42Node struct {
 	ops  []string
 }
 
-// c42Search is the breadth-first search. Sharding: the levels are explored by every shard identically
-// until the frontier holds at least 4 nodes per shard; from then on shard i keeps the frontier nodes
-// i, i+S, ... and continues alone (sub-searches overlap, every state is still reached by at least one
-// shard because every frontier node is owned by one). Work of the shared levels is counted by shard 0.
-func c42Search(t *testing.T, p c42Params, maxDepth int, deadline time.Time, exec func(hist []string, cont bool) c42Result, filter func(v vsched.Violation) bool) {
+// c42Search is the breadth-first search. Sharding is done by the worlds (c42OwnsFirstFault): every
+// shard explores the fault-free part and the faulty histories whose first fault belongs to it; the
+// fault-free part is counted by shard 0 only.
+func c42Search(t *testing.T, p c42Params, params map[string]any, maxDepth int, deadline time.Time, exec func(hist []string, cont bool) c42Result, filter func(v vsched.Violation) bool) {
 	r := vsched.Rep()
 	st := r.NewScenario(p.name, "states")
 	st.Bound = p.faults
 	st.BoundCompleted = -1
-	st.Params = map[string]any{"messages": p.n, "window": p.w, "fault_budget": p.faults, "tick_budget": p.ticks, "fault_classes": fmt.Sprint(p.classes), "max_depth": maxDepth}
+	st.Params = map[string]any{"messages": p.n, "window": p.w, "fault_budget": p.faults, "tick_budget": p.ticks, "max_depth": maxDepth}
+	for k, v := range params {
+		st.Params[k] = v
+	}
 	if r.ReplayScenario() != "" {
 		if r.ReplayScenario() == p.name {
 			c42Replay(p, exec, filter)
@@ -501,10 +521,17 @@ func c42Search(t *testing.T, p c42Params, maxDepth int, deadline time.Time, exec
 		return
 	}
 	seen := map[uint64]struct{}{}
-	split := false
-	count := true // shard 0 counts the shared levels
+	faulty := func(h []string) bool {
+		for _, e := range h {
+			if strings.HasPrefix(e, "drop ") || strings.HasPrefix(e, "dup ") || strings.HasPrefix(e, "tick(") {
+				return true
+			}
+		}
+		return false
+	}
+	counted := func(h []string) bool { return r.Shard == 0 || faulty(h) }
 	record := func(h []string, res c42Result) {
-		if !count {
+		if !counted(h) {
 			return
 		}
 		st.Executions++
@@ -520,7 +547,7 @@ func c42Search(t *testing.T, p c42Params, maxDepth int, deadline time.Time, exec
 		}
 		nontrivial := false
 		for _, e := range h {
-			if strings.HasPrefix(e, "drop ") || strings.HasPrefix(e, "dup ") || e == "tick" {
+			if strings.HasPrefix(e, "drop ") || strings.HasPrefix(e, "dup ") || strings.HasPrefix(e, "tick") {
 				nontrivial = true
 			}
 		}
@@ -537,7 +564,6 @@ func c42Search(t *testing.T, p c42Params, maxDepth int, deadline time.Time, exec
 			r.ReportViolation(p.name, v, map[string]any{"history": h, "params": st.Params})
 		}
 	}
-	count = r.Shard == 0
 	root := exec(nil, false)
 	if root.invalid != "" {
 		st.Invalid++
@@ -552,23 +578,12 @@ func c42Search(t *testing.T, p c42Params, maxDepth int, deadline time.Time, exec
 		return
 	}
 	seen[vsched.Hash64(root.canon)] = struct{}{}
-	if count {
+	if r.Shard == 0 {
 		st.States = 1
 	}
 	report(nil, root)
 	frontier := []c42Node{{nil, root.ops}}
 	for depth := 1; depth <= maxDepth && len(frontier) > 0; depth++ {
-		if !split && r.NShards > 1 && len(frontier) >= 4*r.NShards {
-			split = true
-			count = true
-			var mine []c42Node
-			for i, n := range frontier {
-				if r.OwnsIndex(int64(i)) {
-					mine = append(mine, n)
-				}
-			}
-			frontier = mine
-		}
 		var next []c42Node
 		for _, n := range frontier {
 			for _, op := range n.ops {
@@ -590,7 +605,7 @@ func c42Search(t *testing.T, p c42Params, maxDepth int, deadline time.Time, exec
 					continue
 				}
 				seen[k] = struct{}{}
-				if count {
+				if counted(h) {
 					st.States++
 				}
 				if len(res.ops) > 0 {
@@ -599,6 +614,9 @@ func c42Search(t *testing.T, p c42Params, maxDepth int, deadline time.Time, exec
 			}
 		}
 		frontier = next
+		if os.Getenv("VERIF_C42_TRACE") != "" {
+			fmt.Printf("TRACE %s depth=%d frontier=%d states=%d transitions=%d\n", p.name, depth, len(frontier), st.States, st.Transitions)
+		}
 		if len(frontier) > 0 && depth == maxDepth {
 			st.Capped = fmt.Sprintf("depth horizon %d reached with %d open states (their continuation was checked)", maxDepth, len(frontier))
 			return
@@ -643,7 +661,15 @@ func c42Scenarios() []c42Params {
 	n, w := 3, 2
 	f := vsched.Pick(1, 2)
 	tk := vsched.Pick(2, 3)
-	return []c42Params{{name: fmt.Sprintf("p2p/N%d/W%d/F%d/T%d", n, w, f, tk), n: n, w: w, faults: f, ticks: tk}}
+	if s := os.Getenv("VERIF_C42_CFG"); s != "" { // development aid
+		fmt.Sscanf(s, "%d,%d,%d,%d", &n, &w, &f, &tk)
+	}
+	r := vsched.Rep()
+	sh, nsh := r.Shard, r.NShards
+	if r.ReplayScenario() != "" {
+		sh, nsh = 0, 1
+	}
+	return []c42Params{{name: fmt.Sprintf("p2p/N%d/W%d/F%d/T%d", n, w, f, tk), n: n, w: w, faults: f, ticks: tk, shard: sh, nshards: nsh}}
 }
 
 func c42Test(t *testing.T, prop string) {
@@ -657,7 +683,7 @@ func c42Test(t *testing.T, prop string) {
 		_ = left
 		dl := time.Time{}
 		_ = i
-		c42Search(t, p, 200, dl, func(h []string, cont bool) c42Result { return c42Exec(t, p, h, cont) },
+		c42Search(t, p, nil, 200, dl, func(h []string, cont bool) c42Result { return c42Exec(t, p, h, cont) },
 			func(v vsched.Violation) bool { return strings.HasPrefix(v.Signature, prop+":") })
 	}
 }
